@@ -282,9 +282,7 @@ fn history_json(a: &Arena, f: &Found) -> Value {
 
 pub fn load_arena(i: usize) -> Arena {
     let def = &ARENAS[i];
-    // fixed hash seed on a fresh thread so that defaulted-depot indices are reproducible
-    crate::hashseed::reset(1);
-    std::thread::spawn(move || Arena::load(def.name, def.code)).join().expect("arena load")
+    Arena::load(def.name, def.code)
 }
 
 /// replay a recorded history on a fresh arena; returns the violations (clause, detail) seen at the last step
@@ -292,8 +290,7 @@ pub fn replay_history(prop: &str, r: &Value, verbose: bool) -> Result<Vec<(Strin
     let code = r.get("arena_code").and_then(|x| x.as_str()).ok_or("no arena_code")?.to_string();
     let name = r.get("arena").and_then(|x| x.as_str()).unwrap_or("replay").to_string();
     let input = r.get("input").cloned().ok_or("no input")?;
-    crate::hashseed::reset(r.get("hash_seed").and_then(|x| x.as_u64()).unwrap_or(1));
-    let a = std::thread::spawn(move || Arena::from_input(&name, &code, input)).join().map_err(|_| "arena load panicked")?;
+    let a = Arena::from_input(&name, &code, input);
     let init = r.get("initial_state").and_then(|x| x.as_str()).unwrap_or("empty");
     let mut s = initial_states(&a).into_iter().find(|(n, _)| *n == init).ok_or("unknown initial state")?.1;
     let ops: Vec<Op> = r.get("operations").and_then(|x| x.as_array()).ok_or("no operations")?.iter().map(|j| Op::from_json(&a, j)).collect::<Result<_, _>>()?;
@@ -415,7 +412,10 @@ pub fn check(prop: &str, tier: &str) -> i32 {
             }
             match r1 {
                 Ok(v) if v.iter().any(|(c, _)| *c == f.clause) => {}
-                other => machinery_error(prop, &format!("violation {} did not reproduce on replay: {:?}", f.clause, other)),
+                other => {
+                    let _ = std::fs::write("/verif/target/last-unreproduced.json", serde_json::to_string_pretty(&rj).unwrap());
+                    machinery_error(prop, &format!("violation {} did not reproduce on replay: {:?} (history in /verif/target/last-unreproduced.json)", f.clause, other))
+                }
             }
             confirmed += 1;
         }
